@@ -128,7 +128,9 @@ def run_jobs(chk, jobs, label):
         elif clause:
             sig = '%s|%s' % (clause, arg)
             if clause == 'C18:caller-hook-not-restored':
-                sig += '|' + ('coverage' if arg in ('sysTrace', 'thrTrace') else 'profile')
+                sig += '|' + ('coverage' if 'coverage' in rec['opts'] and arg in ('sysTrace', 'thrTrace')
+                              else 'post-mortem' if 'D' in rec['opts'] and arg == 'sysTrace'
+                              else 'profile' if 'profile' in rec['opts'] else 'other')
             chk.violation(sig, '%s: %s differs after the run (options %s, ending %s, raised %r): %r -> %r'
                           % (clause, arg, rec['opts'], rec['ending'], rec['raised'],
                              rec['before'].get(arg), rec['after'].get(arg)),
@@ -147,7 +149,7 @@ def run(chk, tier, seed, replay=None):
                 'Traceback; per-test startTest / body / stopTest; early_teardown / '
                 'global_teardown in finally) for all 2^8 option subsets x 7 endings of the '
                 'test phase x caller with / without own trace and profile hooks: Restored, HooksRestored, '
-                'Terminates, mid-run state as predicted; seven deviation configs must each give a counterexample. (2) real '
+                'Terminates, mid-run state as predicted; eight deviation configs must each give a counterexample. (2) real '
                 'runs in a fresh interpreter each, with a non-default caller state (gc threshold '
                 '(701,11,9), an extra warnings filter, wrapped traceback functions, optionally own '
                 'trace / profile hooks): option subsets (quick: pairwise + all singles, thorough: '
@@ -164,7 +166,7 @@ def run(chk, tier, seed, replay=None):
         return
     rng = random.Random(seed * 7919 + 18)
     chk.add_tlc('GlobalState_design', tlc.run('GlobalState', 'GlobalState_design', timeout=900))
-    for dev in ('CoverageResetsTrace', 'ProfileResetsHook', 'TeardownOutsideFinally', 'NoCatchWarnings', 'CatchWarningsOnlyIfSet',
+    for dev in ('CoverageResetsTrace', 'ProfileResetsHook', 'PostMortemResetsTrace', 'TeardownOutsideFinally', 'NoCatchWarnings', 'CatchWarningsOnlyIfSet',
                 'HooksDownBeforeRestore', 'TracebackKeepsPrint'):
         res = tlc.run('GlobalState', 'GlobalState_dev_' + dev, timeout=600)
         chk.add_tlc('dev_' + dev, res, expect_ok=False)
@@ -186,6 +188,11 @@ def run(chk, tier, seed, replay=None):
     # caller with its own trace / profile hooks (separate family: see known findings)
     for k, (s, e) in enumerate(combos[::7 if tier == 'quick' else 3]):
         jobs.append(make_job('h%d' % k, s, e, True, rng))
+    k = 0
+    for s in (('coverage',), ('profile',), ('D',), ('coverage', 'profile', 'D'), tuple(OPTS)):
+        for e in ('normal', 'failing', 'postmortem', 'kbint', 'hookDown', 'stop'):
+            k += 1
+            jobs.append(make_job('p%d' % k, s, e, True, rng))
     chk.sample({'args': jobs[5]['args'], 'meta': jobs[5]['meta'], 'pre': jobs[5]['pre'],
                 'world': jobs[5]['world']})
     run_jobs(chk, jobs, 'runs')
